@@ -262,6 +262,19 @@ def check(rep, tier, seed):
         if c.diff() is not None:
             core.handle_diff(rep, "C09", "correspondence", c)
             return
+    if tier != "quick":
+        # the real TiKV client's own "result undetermined" (the answer of the commit request is lost after the mock
+        # cluster executed it; ~80 s of client back-off): it must be reported as an unknown outcome, not a definite error
+        lines = ["cfg engine=tikv undet=1", "batch put:6b2f756e646574:7631", "get 6b2f756e646574"]
+        out = core.run_impl("engine", lines, timeout=400)
+        c = core.Case("engine", lines, {"engine": "tikv"})
+        c.impl, c.model = out, ["cfg ok", "batch err uncertain", "get 7631"]
+        rep.count_case(c)
+        if len(out) >= 3 and out[2] == "get 7631" and out[1] not in ("batch err uncertain", "batch ok"):
+            if core.handle_oracle_hit(rep, "C09", "tikv-undetermined-commit-definite-error", c,
+                                      "the TiKV adapter answered `%s` for a commit whose answer was lost although the batch was applied (%s): "
+                                      "an unknown outcome reported as a definite failure" % (out[1], out[2]), "tikv-undetermined-commit-definite-error"):
+                return
     rep.cov["fault_placements"] = len(pl)
     rep.cov["stepped_repair_placements"] = n_spl
     rep.assumptions += ["unknown-outcome faults injected at the KvStorage boundary (applied / not applied), incl. on the repair write",
